@@ -56,7 +56,7 @@ def main(argv=None) -> int:
         except common.AnalysisError as e:
             print(f"ANALYSIS-ERROR property={a.target} {e}")
             return 2
-        hit = [f for f in ctx.findings if f.key == rep["key"]]
+        hit = [f for f in ctx.findings if f.key == rep["key"]][:1]
         for f in hit:
             print(f"  still present: {f!r}")
             print(f"VIOLATION property={a.target} replay={a.replay}")
